@@ -378,17 +378,20 @@ PROVED_WHOLE = ["CheckHeader (C13, given trace)", "CheckPreprocessorProtection (
                 "CheckFunctionsCount (trace model, <= 5 definitions)",
                 "CheckLineIndent (view: skipped / plain / `}` / `{` lines; indentation = depth of the scope chain)",
                 "CheckExpressionStatement (expr_pos_ok at every position, return_ok after `return`)",
-                "CheckSpacing (sp_ok at every position of the statement)"]
+                "CheckSpacing (sp_ok at every position of the statement)",
+                "CheckIdentifierName (names over [a-z0-9_], functions at global scope)",
+                "CheckComment (no comment token; or outside functions every comment first on its line / followed by blanks only)",
+                "CheckLineCount (unconditional: its guard names a rule no primary has)"]
 PROVED_PARTIAL = {"CheckControlStatement": "translated part (WRONG_SCOPE, EXP_NEWLINE, FORBIDDEN_CS, ASSIGN_IN_CONTROL): cs_pos_ok at every position, "
                                            "every `(` closed before the line end, indentation >= 1 (scope-trace model)",
                   "CheckUtypeDeclaration": "translated part (TYPE_NOT_GLOBAL / FORBIDDEN_<type>), in headers",
                   "CheckBrace": "TOO_MANY_LINES at <= 25 body lines (scope-trace model)",
                   "CheckVariableDeclaration": "TOO_MANY_VARS_FUNC at <= 5 declarations (counter model)",
                   "CheckFuncDeclaration": "TOO_MANY_ARGS at <= 4 parameters (token-level counter)"}
-TESTED_ONLY = ["CheckAssignation", "CheckAssignationIndent", "CheckBlockStart", "CheckBrace", "CheckComment", "CheckCommentLineLen",
+TESTED_ONLY = ["CheckAssignation", "CheckAssignationIndent", "CheckBlockStart", "CheckBrace", "CheckCommentLineLen",
                "CheckControlStatement", "CheckDeclaration", "CheckEnumVarDecl", "CheckFuncArgumentsName",
-               "CheckFuncDeclaration", "CheckFuncSpacing", "CheckGeneralSpacing", "CheckGlobalNaming", "CheckIdentifierName", "CheckInHeader",
-               "CheckLineCount", "CheckNestLineIndent", "CheckNewlineIndent", "CheckOperatorsSpacing",
+               "CheckFuncDeclaration", "CheckFuncSpacing", "CheckGeneralSpacing", "CheckGlobalNaming", "CheckInHeader",
+               "CheckNestLineIndent", "CheckNewlineIndent", "CheckOperatorsSpacing",
                "CheckPreprocessorDefine", "CheckPreprocessorInclude", "CheckPreprocessorIndent", "CheckPrototypeIndent",
                "CheckStructNaming", "CheckUtypeDeclaration", "CheckVariableDeclaration", "CheckVariableIndent"]
 
@@ -566,7 +569,7 @@ def finish(run, b, sizes, ktables, hist):
     }
     return run.finish(max(len(b.theorems), 1), disc, RULE, extra=extra,
                       assumptions=["C01_statement (all 39 checks silent on all of G) is NOT proved and is false of the current tree (K1..K4)",
-                                   "C01_partial_K: 11 of 39 checks proved silent as a whole on conforming statements (5 more partially), under shape / given-history "
+                                   "C01_partial_K: 14 of 39 checks proved silent as a whole on conforming statements (5 more partially), under shape / given-history "
                                    "hypotheses (scope name and indentation derived from the scope-trace model); the code set {INVALID_HEADER} + HEADER_PROT_* + lexical codes; the tokenizer on conforming "
                                    "texts of any number of lines (tabs, identifiers, single spaces, simple operators, brackets, the atoms of Spec/Conforming.v, line ends)",
                                    "K2..K4 are established on the implementation only (CheckOperatorsSpacing is not modelled)"])
